@@ -83,7 +83,17 @@ def batch_independence(ctx, clause: str):
         par = pm.get(n)
         guarded_body = None
         early_ret = None
-        if isinstance(par, ast.If) and par.test is n:
+        # the reduction as one operand of a compound test (`if warn and bool(M.any()):`): whatever the test's value, both arms of
+        # that `if` may only hold warnings / masked idempotent updates
+        top = n
+        while isinstance(pm.get(top), (ast.BoolOp, ast.UnaryOp)) or (isinstance(pm.get(top), ast.Call) and call_name(pm.get(top)) == "bool"):
+            top = pm.get(top)
+        if top is not n and isinstance(pm.get(top), ast.If) and pm.get(top).test is top and not (
+                isinstance(par, ast.UnaryOp) and isinstance(par.op, ast.Not) and pm.get(par) is pm.get(top)):
+            gi_ = pm.get(top)
+            guarded_body = list(gi_.body) + list(gi_.orelse)
+            par = gi_
+        elif isinstance(par, ast.If) and par.test is n:
             guarded_body = par.body
         elif isinstance(par, ast.UnaryOp) and isinstance(par.op, ast.Not) and isinstance(pm.get(par), ast.If) and pm.get(par).test is par:
             # the guard-clause form: `if not M.any(): return t` followed by what the batch-wide test guards
@@ -120,6 +130,8 @@ def batch_independence(ctx, clause: str):
                         continue
                 if isinstance(st, ast.If) and all(isinstance(s, ast.Expr) and isinstance(s.value, ast.Call)
                                                   and call_name(s.value) == "warnings.warn" for s in st.body) and not st.orelse:
+                    continue
+                if isinstance(st, ast.Expr) and isinstance(st.value, ast.Call) and call_name(st.value) == "warnings.warn":
                     continue
                 if isinstance(st, ast.Assign) and len(st.targets) == 1 and isinstance(st.targets[0], ast.Name):
                     t = st.targets[0].id
@@ -167,8 +179,16 @@ def batch_independence(ctx, clause: str):
 
 
 def equal_cost_shortcut(ctx, clause: str):
-    """C02-S3: in the equal-cost branch costs are reset to 1.0 and the multiplier only rescales distances
-    (never counts)."""
+    """C02-S3 as a table: the head of the kernel (everything before the dynamic programme) is interpreted (sa/interp.py, lenient)
+    for cost triples that are equal and positive, equal and zero, and unequal, with error counts requested or not. Where the walk
+    stops, the state must be: equal positive costs -> the three costs are 1, the mistakes table is off, and the multiplier is the
+    common cost when distances were requested and 1 when counts were; otherwise -> costs and the mode untouched, multiplier 1.
+    Where the flag, the multiplier or the reset are written - inside the branch, before it, as conditional expressions - is
+    irrelevant. The multiplier is the float local that is multiplied into a returned value."""
+    from fractions import Fraction as Fr
+    from sa.interp import Interp, POISON
+    from sa.inteval import NotEvaluable
+    from sa.teval import frac_array
     col, pkg = ctx.col, ctx.pkg
     rel = pkg.module(MOD).relname
     f = pkg.func(f"{MOD}::{KERNEL}")
@@ -176,118 +196,76 @@ def equal_cost_shortcut(ctx, clause: str):
     pm = parent_map(f.node)
     rd = ReachingDefs(f.node)
     costs = ("ins_cost", "del_cost", "sub_cost")
-    br = None
-    from sa.inline import Inliner as _InlEq
-    _inl_eq = _InlEq(f.node, rd)
-    for n in own_nodes(f.node):
-        # the test that all three costs are equal (one chained comparison, an `and` of comparisons, a named flag ...)
-        if isinstance(n, ast.If):
-            names_ = {x.id for x in ast.walk(_inl_eq.expand(n.test)) if isinstance(x, ast.Name)}
-            if all(c in names_ for c in costs) and br is None:
-                br = n
-    if br is None:
-        raise AnalysisError("the equal-cost branch of the kernel was not found")
-    # as a truth table over the three costs: the shortcut is taken exactly when ins == del == sub > 0
-    from sa.inteval import NotEvaluable as _NEq, int_eval as _ieq
-    ok_ops = True
-    try:
-        tx = _inl_eq.expand(br.test)
-        for a_ in (0, 1, 2):
-            for b_ in (0, 1, 2):
-                for c_ in (0, 1, 2):
-                    if bool(_ieq(tx, {"ins_cost": a_, "del_cost": b_, "sub_cost": c_})) != (a_ == b_ == c_ and c_ > 0):
-                        ok_ops = False
-    except _NEq:
-        ok_ops = False
-    col.ob("G16", clause, f"{where}::equal-cost-test", ok_ops,
-           f"the shortcut is taken under `{u(br.test)}`; expected ins == del == sub > 0", rel, br.lineno, sample=u(br.test))
-    # the branch interpreted for both values of return_mistakes: afterwards the three costs are 1, the multiplier is the
-    # common cost when distances were requested and 1 when error counts were, and the mistakes table is off
-    inside = {x.id for st in ast.walk(br) for x in ([st.targets[0]] if isinstance(st, ast.Assign) and len(st.targets) == 1 else [])
-              if isinstance(x, ast.Name)} - set(costs) - {"return_mistakes"}
-    # the multiplier: assigned in the shortcut and multiplied into a returned value
+    formals = {p.name for p in f.params}
     mult_operands = {o.id for n_ in own_nodes(f.node) if isinstance(n_, ast.BinOp) and isinstance(n_.op, ast.Mult)
-                     for o in (n_.left, n_.right) if isinstance(o, ast.Name)}
-    cands = sorted(inside & mult_operands)
-    if len(cands) != 1:
-        raise AnalysisError(f"the cost multiplier of the equal-cost branch was not found (candidates {cands})")
-    mname = cands[0]
-    pre_init = [d for d in rd.defs if d.name == mname and d.kind == "assign" and u(d.value) in ("1.0", "1")
-                and d.stmt is not None and not any(x is d.stmt for x in ast.walk(br))]
+                     for o in (n_.left, n_.right) if isinstance(o, ast.Name)} - formals
 
-    class _Und(Exception):
-        pass
-
-    def _ev(e, st_):
-        if isinstance(e, ast.Constant):
-            return e.value
-        if isinstance(e, ast.Name):
-            if e.id in st_:
-                return st_[e.id]
-            raise _Und(e.id)
-        if isinstance(e, ast.UnaryOp) and isinstance(e.op, ast.Not):
-            return not _ev(e.operand, st_)
-        if isinstance(e, ast.IfExp):
-            return _ev(e.body, st_) if _ev(e.test, st_) else _ev(e.orelse, st_)
-        raise _Und(u(e)[:40])
-
-    def _run(body, st_):
-        for x in body:
-            if isinstance(x, ast.Assign):
-                tg = [t.id for t in x.targets if isinstance(t, ast.Name)]
-                if not set(tg) & set(st_):
-                    continue
-                if len(tg) != len(x.targets):
-                    raise _Und(u(x)[:40])
-                v_ = _ev(x.value, st_)
-                for t in tg:
-                    st_[t] = v_
-            elif isinstance(x, ast.If):
-                try:
-                    taken = x.body if _ev(x.test, st_) else x.orelse
-                except _Und:
-                    # a test on something that is not tracked (`warn`): both arms must leave the tracked values alike
-                    sa_, sb_ = dict(st_), dict(st_)
-                    _run(x.body, sa_)
-                    _run(x.orelse, sb_)
-                    if sa_ != sb_:
-                        raise
-                    st_.update(sa_)
-                    continue
-                _run(taken, st_)
-            elif isinstance(x, (ast.Expr, ast.Pass)):
-                continue
-            else:
-                if {n_.id for n_ in ast.walk(x) if isinstance(n_, ast.Name) and isinstance(n_.ctx, ast.Store)} & set(st_):
-                    raise _Und(type(x).__name__)
-    outcome = {}
+    def head_state(c3, rm):
+        def leaf(x, env):
+            if isinstance(x, ast.Call) and call_name(x) == "_lens_from_eos":
+                return frac_array([2, 2])
+            return None
+        it = Interp(leaf=leaf, tensors=True, lenient=True)
+        env = {a.arg: None for a in f.node.args.args}
+        for a_, d_ in zip(reversed(f.node.args.args), reversed(f.node.args.defaults)):
+            if isinstance(d_, ast.Constant):
+                env[a_.arg] = d_.value
+        env.update(ref=frac_array([[1, 2], [3, 4]]), hyp=frac_array([[1, 2], [3, 4]]), eos=None, include_eos=False, batch_first=False,
+                   ins_cost=c3[0], del_cost=c3[1], sub_cost=c3[2], warn=False, return_mistakes=rm)
+        kind, val = it.run(f.node, env)
+        if kind != "stopped":
+            raise NotEvaluable(f"the walk ended with {kind} before the dynamic programme")
+        late = [n for n in own_nodes(f.node) if isinstance(n, ast.Name) and isinstance(n.ctx, ast.Store)
+                and n.id in set(costs) | {"return_mistakes"} and n.lineno >= val.lineno]
+        if late:
+            raise NotEvaluable(f"`{late[0].id}` is assigned after the point the walk reached")
+        return env, val
     try:
-        for flag in (False, True):
-            st_ = {c: "COST" for c in costs}
-            st_.update({mname: 1.0 if pre_init else "UNSET", "return_mistakes": flag})
-            _run(br.body, st_)
-            outcome[flag] = dict(st_)
-        # unequal costs: the other arm leaves the multiplier at 1
-        st_e = {c: "COST_" + c for c in costs}
-        st_e.update({mname: 1.0 if pre_init else "UNSET", "return_mistakes": True})
-        _run(br.orelse, st_e)
-        outcome["unequal"] = dict(st_e)
-    except _Und as ex:
-        col.undecided(f"{where}: equal-cost branch outside the interpreted fragment ({ex})")
-        outcome = None
-    if outcome is not None:
-        col.ob("G16", clause, f"{where}::costs-reset-to-1", all(outcome[fl][c] in (1, 1.0) for fl in (True, False) for c in costs),
-               "in the equal-cost branch the three costs are not all reset to 1.0", rel, br.lineno)
-        col.ob("G16", clause, f"{where}::multiplier-only-for-distances", outcome[True][mname] in (1, 1.0),
-               f"`{mname}` rescales by the cost even when error counts (return_mistakes) are requested: an error rate "
-               f"would no longer equal the plain Levenshtein count for equal costs != 1", rel, br.lineno, sample=str(outcome[True][mname]))
-        col.ob("G16", clause, f"{where}::multiplier-read-before-reset", outcome[False][mname] == "COST",
-               f"with distances requested the multiplier is {outcome[False][mname]!r} after the branch, not the common cost (it is "
-               f"taken after the cost was reset to 1.0, or not at all)", rel, br.lineno, sample=str(outcome[False][mname]))
-        col.ob("G16", clause, f"{where}::mistakes-table-off-for-equal-costs", all(outcome[fl]["return_mistakes"] is False for fl in (True, False)),
-               "the equal-cost branch does not fall back to the distance table", rel, br.lineno)
-    col.ob("G16", clause, f"{where}::multiplier-initialised-1", outcome is not None and outcome["unequal"][mname] in (1, 1.0),
-           f"with unequal costs the multiplier `{mname}` is {outcome['unequal'][mname] if outcome else '?'}, not 1.0", rel, f.line)
+        probe, stop = head_state((Fr(2), Fr(2), Fr(2)), False)
+        cands = sorted(k for k in mult_operands if k in probe and isinstance(probe[k], (int, float, Fr)) and not isinstance(probe[k], bool))
+        if len(cands) != 1:
+            raise AnalysisError(f"the cost multiplier of the equal-cost branch was not found (candidates {cands})")
+        mname = cands[0]
+        rows = {}
+        for c3 in ((Fr(2), Fr(2), Fr(2)), (Fr(1), Fr(1), Fr(1)), (Fr(0), Fr(0), Fr(0)), (Fr(1), Fr(2), Fr(3)), (Fr(2), Fr(2), Fr(3)), (Fr(3), Fr(2), Fr(2))):
+            for rm in (False, True):
+                env, _ = head_state(c3, rm)
+                if any(env.get(k) is POISON for k in costs + (mname, "return_mistakes")):
+                    raise NotEvaluable("a cost / the multiplier / the mode is computed outside the fragment")
+                rows[(c3, rm)] = (tuple(env[c] for c in costs), env[mname], env["return_mistakes"])
+    except NotEvaluable as ex:
+        col.undecided(f"{where}: the head of the kernel is outside the interpreted fragment ({ex})")
+        return
+    col.floor("equal_cost_table_rows", len(rows), 12)
+    eq = [(c3, rm) for (c3, rm) in rows if c3[0] == c3[1] == c3[2] and c3[2] > 0]
+    ne = [(c3, rm) for (c3, rm) in rows if not (c3[0] == c3[1] == c3[2] and c3[2] > 0)]
+    line = stop.lineno
+
+    def _first(pred, keys):
+        return next((k for k in keys if not pred(k)), None)
+    k = _first(lambda k_: (rows[k_][0] == (1, 1, 1)) or (rows[k_][0] == k_[0] and rows[k_][2] == k_[1] and rows[k_][1] == 1), eq)
+    k2 = _first(lambda k_: rows[k_][0] == k_[0] and rows[k_][2] == k_[1], ne)
+    col.ob("G16", clause, f"{where}::equal-cost-test", True if (k is None and k2 is None) else not (
+        (k is not None and rows[k][0] == k[0]) or (k2 is not None and rows[k2][0] != k2[0])),
+           (f"with costs {tuple(map(float, (k or k2)[0]))} the equal-cost shortcut is {'not ' if k is not None else ''}taken; expected exactly for "
+            f"ins == del == sub > 0") if (k is not None or k2 is not None) else "", rel, line)
+    k = _first(lambda k_: rows[k_][0] == (1, 1, 1), eq)
+    col.ob("G16", clause, f"{where}::costs-reset-to-1", k is None,
+           f"with equal costs {float(k[0][0]) if k else ''} the dynamic programme runs with costs {tuple(map(float, rows[k][0])) if k else ''}, not all 1.0", rel, line)
+    k = _first(lambda k_: rows[k_][1] == 1, [x for x in eq if x[1]])
+    col.ob("G16", clause, f"{where}::multiplier-only-for-distances", k is None,
+           (f"`{mname}` is {float(rows[k][1])} for equal costs {float(k[0][0])} although error counts (return_mistakes) are requested: an error rate "
+            f"would no longer equal the plain Levenshtein count for equal costs != 1") if k else "", rel, line)
+    k = _first(lambda k_: rows[k_][1] == k_[0][0], [x for x in eq if not x[1]])
+    col.ob("G16", clause, f"{where}::multiplier-read-before-reset", k is None,
+           (f"with distances requested and equal costs {float(k[0][0])} the multiplier is {float(rows[k][1])} after the head, not the common cost "
+            f"(it is taken after the cost was reset to 1.0, or not at all)") if k else "", rel, line)
+    k = _first(lambda k_: rows[k_][2] is False, eq)
+    col.ob("G16", clause, f"{where}::mistakes-table-off-for-equal-costs", k is None,
+           "the equal-cost branch does not fall back to the distance table", rel, line)
+    k = _first(lambda k_: rows[k_][1] == 1, ne)
+    col.ob("G16", clause, f"{where}::multiplier-initialised-1", k is None,
+           f"with costs {tuple(map(float, k[0])) if k else ''} the multiplier `{mname}` is {float(rows[k][1]) if k else ''}, not 1.0", rel, f.line)
     # every returned distance is multiplied by the multiplier exactly once (the mask form is not a distance)
     rets = [n for n in own_nodes(f.node) if isinstance(n, ast.Return) and n.value is not None]
     counts = {}
@@ -557,3 +535,92 @@ def distance_buffers_are_floating(ctx, clause: str):
                    f"stored distance is truncated towards zero (the per-prefix distances disagree with the whole-string distance)", rel, c.lineno,
                    sample=u(c)[:100])
     col.floor("distance_buffers", n_buf, 1)
+
+
+def length_table(ctx, clause: str):
+    """The lengths the kernel works with, as a table. The head of `_string_matching` (argument checks, layout, the two length vectors)
+    is interpreted over exact values (sa/interp.py, lenient: it walks until the first statement outside the fragment - the dynamic
+    programme - and every assignment to a length vector lies before that point) with `_lens_from_eos` given by its meaning (index of
+    the first eos, the extent when there is none). For eos given / not given x include_eos x batch_first and sequences with the eos
+    in the middle, at position 0 and absent, the lengths must be: the extent without an eos symbol; the index of the first eos, plus
+    one under include_eos exactly for the sequences that contain one."""
+    import numpy as np
+    from sa.interp import Interp, POISON
+    from sa.inteval import NotEvaluable
+    from sa.teval import frac_array
+    col, pkg = ctx.col, ctx.pkg
+    rel = pkg.module(MOD).relname
+    f = pkg.func(f"{MOD}::{KERNEL}")
+    where = f"{rel}::{KERNEL}"
+    lens = {}
+    for n in own_nodes(f.node):
+        if isinstance(n, ast.Assign) and isinstance(n.value, ast.Call) and call_name(n.value) == "_lens_from_eos" \
+                and isinstance(n.targets[0], ast.Name) and n.value.args and u(n.value.args[0]) in ("ref", "hyp"):
+            lens[u(n.value.args[0])] = n.targets[0].id
+    if set(lens) != {"ref", "hyp"}:
+        raise AnalysisError("the reference / hypothesis length vectors (results of _lens_from_eos) were not found")
+    EOS = 9
+    ref_rn = [[1, 1, 9], [9, 2, 5], [2, 3, 5], [9, 4, 5]]  # (R=4, N=3): first eos at 1, none, 0
+    hyp_hn = [[9, 7, 7], [1, 9, 7], [1, 1, 7]]            # (H=3, N=3): first eos at 0, 1, none
+
+    def first_eos(a, eos, dim):
+        a = np.moveaxis(a, dim, 0)
+        out = []
+        for j in range(a.shape[1]):
+            col_ = [int(x) for x in a[:, j]]
+            out.append(col_.index(eos) if eos in col_ else len(col_))
+        return frac_array(out)
+    bad, n_rows = None, 0
+    try:
+        for eos in (EOS, None):
+            for inc in (True, False):
+                for bf in (False, True):
+                    holder = {}
+
+                    def leaf(x, env):
+                        if isinstance(x, ast.Call) and call_name(x) == "_lens_from_eos":
+                            it_ = holder["it"]
+                            b_ = dict(zip(("tok", "eos", "dim"), x.args))
+                            b_.update({k.arg: k.value for k in x.keywords})
+                            if set(b_) != {"tok", "eos", "dim"}:
+                                raise NotEvaluable("_lens_from_eos arguments")
+                            return first_eos(it_.eval(b_["tok"], env), it_.eval(b_["eos"], env), int(it_.eval(b_["dim"], env)))
+                        return None
+                    it = Interp(leaf=leaf, tensors=True, lenient=True)
+                    holder["it"] = it
+                    env = {a.arg: None for a in f.node.args.args}
+                    for a_, d_ in zip(reversed(f.node.args.args), reversed(f.node.args.defaults)):
+                        if isinstance(d_, ast.Constant):
+                            env[a_.arg] = d_.value
+                    ref, hyp = frac_array(ref_rn), frac_array(hyp_hn)
+                    env.update(ref=ref.T if bf else ref, hyp=hyp.T if bf else hyp, eos=eos, include_eos=inc, batch_first=bf,
+                               ins_cost=1.0, del_cost=1.0, sub_cost=1.0, warn=False)
+                    kind, val = it.run(f.node, env)
+                    if kind != "stopped":
+                        raise NotEvaluable(f"the walk ended with {kind} before the dynamic programme")
+                    late = [n for n in own_nodes(f.node) if isinstance(n, ast.Name) and isinstance(n.ctx, ast.Store) and n.id in lens.values()
+                            and n.lineno >= val.lineno]
+                    if late:
+                        raise NotEvaluable("a length vector is assigned after the point the walk reached")
+                    n_rows += 1
+                    for which, data in (("ref", ref_rn), ("hyp", hyp_hn)):
+                        got = env.get(lens[which])
+                        if got is None or got is POISON:
+                            raise NotEvaluable(f"the {which} lengths were not computed inside the fragment")
+                        cols = list(zip(*data))
+                        want = []
+                        for c_ in cols:
+                            if eos is not None and eos in c_:
+                                want.append(c_.index(eos) + (1 if inc else 0))
+                            else:
+                                want.append(len(c_))
+                        if [int(x) for x in np.asarray(got).tolist()] != want and bad is None:
+                            bad = (which, eos, inc, bf, [int(x) for x in np.asarray(got).tolist()], want)
+    except NotEvaluable as e:
+        col.undecided(f"{where}: the length computation is outside the interpreted fragment ({e})")
+        return
+    col.floor("length_table_rows", n_rows, 8)
+    col.ob("G16", clause, f"{where}::include-eos-adds-one", bad is None,
+           (f"with eos={bad[1]}, include_eos={bad[2]}, batch_first={bad[3]} the kernel works with {bad[0]} lengths {bad[4]} for sequences whose "
+            f"first eos is at {'1, none, 0' if bad[0] == 'ref' else '0, 1, none'}; documented: {bad[5]} (the index of the first eos, plus one under "
+            f"include_eos only where there is an eos; the extent otherwise)") if bad else "", rel, f.line, sample=dict(rows=n_rows))
